@@ -169,7 +169,9 @@ def check(run: Run) -> None:
     vn9 = cap.methods.get("visit_Name")
     n_try = 0
     if vn9 is not None:
-        fns9 = list(_unit9(m, vn9)) + [f_ for f_ in m.funcs.values() if f_.parent_func is vn9]
+        from ..lib import view as _view9
+
+        fns9 = list(_unit9(m, _view9(m, vn9))) + list(_unit9(m, vn9)) + [f_ for f_ in m.funcs.values() if f_.parent_func is vn9]
         seen9 = set()
         for f_ in fns9:
             if f_.qual in seen9:
@@ -205,6 +207,9 @@ def check(run: Run) -> None:
     rvn = rcv.methods.get("visit_Name")
     if rvn is None:
         raise AnalysisError("anchor vanished: _rewrite_captured_vars.visit_Name")
+    from ..lib import view as _view5
+
+    rvn = _view5(m, rvn)
     f5 = ctx.analysis(rvn)
     n_l = 0
     nodep5 = ("param", rvn.pos_params[1])
@@ -308,7 +313,9 @@ def _guard(run: Run, fa, vc: FuncInfo, ret_stmt, nodep) -> None:
 def check_rewrite_func(run: Run, ctx, m, rule: str) -> None:
     """rewrite_func_as_lambda: a one-line def becomes Lambda(<the def's own arguments object>, <its return expression>)
     (also C03.R5: the def form must recover the function that was passed, parameters and defaults included)."""
-    rf = m.find_func("rewrite_func_as_lambda", in_module="func_adl.util_ast")
+    from ..lib import view as _view
+
+    rf = _view(m, m.find_func("rewrite_func_as_lambda", in_module="func_adl.util_ast"))
     fr = ctx.analysis(rf)
     fp = ("param", rf.pos_params[0])
     rets = fr.returns()
